@@ -134,6 +134,81 @@ func safeMarshal(m any) (b []byte, err error, panicked any) {
 	return
 }
 
+// sizeAndMarshalToAgree reports whether a MarshalTo message fills exactly Size() bytes: no error or panic with an
+// exactly sized buffer, and with a longer one nothing written beyond Size() and the last announced byte written.
+// Messages without MarshalTo trivially agree.
+func sizeAndMarshalToAgree(m any) (ok bool) {
+	mt, is := m.(interface {
+		Size() int
+		MarshalTo([]byte) error
+	})
+	if !is {
+		return true
+	}
+	defer func() {
+		if p := recover(); p != nil {
+			if rep.IsChoicePanic(p) {
+				panic(p)
+			}
+			ok = false
+		}
+	}()
+	sz := mt.Size()
+	exact := make([]byte, sz)
+	if mt.MarshalTo(exact) != nil {
+		return false
+	}
+	long := make([]byte, sz+32)
+	for i := range long {
+		long[i] = 0xEE
+	}
+	if mt.MarshalTo(long) != nil {
+		return false
+	}
+	for _, c := range long[sz:] {
+		if c != 0xEE {
+			return false
+		}
+	}
+	if mt.Size() != sz {
+		return false
+	}
+	return true
+}
+
+// ownMarshalToFails reports whether the message's own MarshalTo, given a buffer of its own Size(), fails or panics.
+func ownMarshalToFails(m any) (fails bool) {
+	mt, ok := m.(interface {
+		Size() int
+		MarshalTo([]byte) error
+	})
+	if !ok {
+		return false
+	}
+	defer func() {
+		if p := recover(); p != nil {
+			if rep.IsChoicePanic(p) {
+				panic(p)
+			}
+			fails = true
+		}
+	}()
+	return mt.MarshalTo(make([]byte, mt.Size())) != nil
+}
+
+// directUnmarshalOK decodes payload into ref with csproto.Unmarshal, outside the nested bridge.
+func directUnmarshalOK(payload []byte, ref any) (ok bool) {
+	defer func() {
+		if p := recover(); p != nil {
+			if rep.IsChoicePanic(p) {
+				panic(p)
+			}
+			ok = false
+		}
+	}()
+	return csproto.Unmarshal(payload, ref) == nil
+}
+
 func runC19(t *rapid.T, w *rep.Worker) {
 	nf := rapid.IntRange(1, 6).Draw(t, "nfields")
 	var fields []field
@@ -205,6 +280,12 @@ func runC19(t *rapid.T, w *rep.Worker) {
 					w.Probe("unjudged_marshal_failure_of_nested_value")
 					usable = i
 				}
+				if usable == len(fields) && !sizeAndMarshalToAgree(f.msg) {
+					// the message's own MarshalTo writes more or fewer bytes than its own Size() announces, or fails
+					// where Marshal does not (C04/C17-class, pure input): EncodeNested has no exact answer for it
+					w.Probe("unjudged_nested_value_whose_size_and_marshalto_disagree")
+					usable = i
+				}
 				p = b
 			}
 			f.payload = p
@@ -262,6 +343,12 @@ func runC19(t *rapid.T, w *rep.Worker) {
 			break // the encoder's state after a failed nested field is not specified
 		}
 		if err != nil {
+			if f.kind == "nested" && !f.isStub && ownMarshalToFails(f.msg) {
+				// the message's own MarshalTo fails where csproto.Marshal (which short-circuits on Size()==0) does not:
+				// a required-field matter of the generated code (C17-class, pure input); the bridge propagated the error
+				w.Probe("nested_own_marshalto_fails_where_marshal_succeeds(C17-class)")
+				break
+			}
 			w.Violate("encode-nested-error|"+flavClass(f), fmt.Sprintf("EncodeNested(%s) returned %v although csproto.Marshal of the same message succeeds", f.flav, err))
 			break
 		}
@@ -470,6 +557,12 @@ func readBack(t *rapid.T, w *rep.Worker, fields []field, exp []byte, cuts []int)
 					return
 				}
 			} else if !f.eq(target, f.msg) {
+				if ref := f.zero(); directUnmarshalOK(f.payload, ref) && f.eq(target, ref) {
+					// csproto.Unmarshal of the payload alone gives the same message: the payload itself does not
+					// round-trip (generated Marshal emitting an unset field, C05-class, pure input), the bridge is exact
+					w.Probe("roundtrip_differs_from_original_but_equals_direct_unmarshal(C05-class)")
+					return
+				}
 				w.Violate("decodenested-message-differs|"+flavClass(f), fmt.Sprintf("field %d (%s): decoded %.200s, original %.200s", i, f.flav, corpus.Digest(target), corpus.Digest(f.msg)))
 				return
 			}
